@@ -272,6 +272,13 @@ def step (s : DState) : List String → DState × List String
     match k.toNat?, extra.toNat?, size.toNat?, parseRecord rest with
     | some k, some e, some n, some r => (s, doResume s k e n r)
     | _, _, _, _ => (s, ["out !bad-op"])
+  | ["boot", k, _extra, uid] =>
+    -- a REAL server session on the journal cut after k records (+ a torn tail that must be ignored and truncated): the
+    -- session appends its ServerStart (uid recorded from the real file) and, at the clean stop, ServerStop
+    match k.toNat?, parseRecord ["start", uid], parseRecord ["stop"] with
+    | some k, some r1, some r2 =>
+      (s, "out boot ok" :: doRestoreList ((s.J.toList.take k).map (·.1) ++ [r1, r2]))
+    | _, _, _ => (s, ["out !bad-op"])
   | ["prune", k, lj, lw] =>
     match k.toNat?, parseNatList lj, parseNatList lw with
     | some k, some lj, some lw =>
